@@ -174,7 +174,7 @@ def execute(scenario, seed, overrides=None):
                 st["hm"] = HostModel(w.hosts["R"].start_time)
             hm = st["hm"]
             fold_api()
-            msg, eff = hm.on_rx(t, rsock.label, data, v6sock=rsock.family == AF_INET6)
+            msg, eff = hm.on_rx(t, rsock.label, data, v6sock=rsock.family == AF_INET6, src=addr)
             src_ip = addr[0].replace("::ffff:", "")
             if msg is None or msg.is_response or src_ip == "10.0.0.1":
                 return
@@ -186,18 +186,19 @@ def execute(scenario, seed, overrides=None):
             if msg.tc:
                 stats["tc_packets"] += 1
                 d = st["deferred"].get(key)
-                amb = False
+                starts, prev_pk = [0], []
                 if d is not None and t > d["last"] + 0.4 - 1e-9:
-                    # the hold timer of the earlier packets may already have fired: either assembly is possible
+                    # the hold timer of the earlier packets may already have fired: the train may continue from any of
+                    # its possible starts, or start afresh with this packet
                     rel0 = make_timer_release(d, key)
                     rel0.ambiguous = True
                     st["releases"].append(rel0)
                     del st["deferred"][key]
+                    prev_pk = list(d["pk"])
+                    starts = sorted(set(d["starts"]) | {len(prev_pk)})
                     d = None
-                    amb = True
                 if d is None:
-                    d = st["deferred"][key] = {"pk": list(rel0.packets3) if amb else [], "last": None, "legacy": legacy,
-                                               "amb": amb, "amb_from": len(rel0.packets3) if amb else 0}
+                    d = st["deferred"][key] = {"pk": prev_pk, "last": None, "legacy": legacy, "starts": starts}
                 if any(p[2] == data for p in d["pk"]):
                     return
                 d["pk"].append((t, msg, data))
@@ -211,19 +212,17 @@ def execute(scenario, seed, overrides=None):
             d = st["deferred"].pop(key, None)
             packets = []
             if d is not None:
-                if t <= d["last"] + 0.4 - 1e-9 and not d.get("amb"):
-                    packets = [(a, b) for (a, b, c) in d["pk"]]
+                if t <= d["last"] + 0.4 - 1e-9 and len(d["starts"]) == 1:
+                    packets = [(a, b) for (a, b, c) in d["pk"][d["starts"][0]:]]
                     stats["tc_trains_released_by_packet"] += 1
                 else:
-                    # the hold timer may or may not have fired already: both assemblies are possible
+                    # the hold timer may or may not have fired already: every assembly is possible
                     rel0 = make_timer_release(d, key)
                     rel0.ambiguous = True
                     st["releases"].append(rel0)
                     packets = None
             if packets is None:
-                alts = [[(a, b) for (a, b, c) in d["pk"]] + [(t, msg)], [(t, msg)]]
-                if d.get("amb"):
-                    alts.append([(a, b) for (a, b, c) in d["pk"][d.get("amb_from", 0):]] + [(t, msg)])
+                alts = [[(a, b) for (a, b, c) in d["pk"][s0:]] + [(t, msg)] for s0 in d["starts"]] + [[(t, msg)]]
                 for pkts in alts:
                     rel = Release(t, t, pkts, src_ip, rsock.label, legacy)
                     classify(rel, t * 1000.0, hm.cache)
@@ -237,22 +236,22 @@ def execute(scenario, seed, overrides=None):
 
         def make_timer_release(d, key):
             last = d["last"]
-            rel = Release(last + 0.4, last + 0.5, [(a, b) for (a, b, c) in d["pk"]], key[1], key[0], d["legacy"])
-            rel.packets3 = list(d["pk"])
-            if d.get("amb"):
-                rel.ambiguous = True
-                # alternative assembly: the earlier packets were already released, only the later ones are held
-                alt = Release(last + 0.4, last + 0.5, [(a, b) for (a, b, c) in d["pk"][d["amb_from"]:]], key[1], key[0],
-                              d["legacy"])
-                if alt.packets:
-                    classify(alt, last * 1000.0, st["hm"].cache)
-                    rel.alt = alt
             st["hm"].cache.advance(w.now)
-            classify(rel, last * 1000.0, st["hm"].cache)
+            rels = []
+            for s0 in d["starts"]:
+                pk = d["pk"][s0:]
+                if not pk:
+                    continue
+                r = Release(last + 0.4, last + 0.5, [(a, b) for (a, b, c) in pk], key[1], key[0], d["legacy"])
+                classify(r, last * 1000.0, st["hm"].cache)
+                r.ambiguous = len(d["starts"]) > 1
+                rels.append(r)
+            rel = rels[0]
+            rel.packets3 = list(d["pk"])
             rel.timer = True
-            if getattr(rel, "alt", None) is not None:
-                rel.alt.ambiguous = True
-                st["releases"].append(rel.alt)
+            # alternative assemblies: the earlier packets were already released, only the later ones are held
+            for alt in rels[1:]:
+                st["releases"].append(alt)
             return rel
 
         def timer_probe(key, t_last, which):
@@ -265,7 +264,7 @@ def execute(scenario, seed, overrides=None):
                 return
             del st["deferred"][key]
             a = d.get("relA")
-            if d.get("amb") or a is None or {k: sorted(x[1] for x in v) for k, v in a.expect.items()} != \
+            if len(d["starts"]) > 1 or a is None or {k: sorted(x[1] for x in v) for k, v in a.expect.items()} != \
                     {k: sorted(x[1] for x in v) for k, v in rel.expect.items()}:
                 rel.ambiguous = True
             if a is not None:
